@@ -106,3 +106,94 @@ def known_merge_contradiction(seed: int = 0, **_: Any) -> Dict[str, Any]:
                      f"instead of reporting an error: {why[:80]}")
     return {"cases": 1, "distinct": 1, "failures": failures, "known": known,
             "samples": [{"that": str(a), "other": str(b), "observed": why}]}
+
+
+# ------------------------------------------------------------------ matchers on parse-tree nodes
+from aas_core_codegen.infer_for_schema import match as _match  # noqa: E402
+from aas_core_codegen.parse import tree as T  # noqa: E402
+from aas_core_codegen.common import Identifier  # noqa: E402
+
+
+def _name(n: str) -> Any:
+    return T.Name(identifier=Identifier(n), original_node=None)  # type: ignore
+
+
+def _self_prop(p: str) -> Any:
+    return T.Member(instance=_name("self"), name=Identifier(p), original_node=None)  # type: ignore
+
+
+def _len_call(arg: Any) -> Any:
+    return T.FunctionCall(name=_name("len"), args=[arg], original_node=None)  # type: ignore
+
+
+def _atoms() -> List[Any]:
+    c = T.Constant(value=5, original_node=None)  # type: ignore
+    out: List[Any] = [
+        _name("x"), _self_prop("a"), c,
+        T.IsNone(value=_self_prop("a"), original_node=None),  # type: ignore
+        T.IsNotNone(value=_self_prop("a"), original_node=None),  # type: ignore
+        T.IsNone(value=_name("a"), original_node=None),  # type: ignore
+        T.IsNotNone(value=T.Member(instance=_name("other"), name=Identifier("a"), original_node=None), original_node=None),  # type: ignore
+        T.Comparison(left=_len_call(_self_prop("b")), op=T.Comparator.LE, right=c, original_node=None),  # type: ignore
+    ]
+    return out
+
+
+def _forms() -> List[Any]:
+    at = _atoms()
+    forms: List[Any] = list(at)
+    for a in at:
+        for b in at[:4] + at[-1:]:
+            forms.append(T.Implication(antecedent=a, consequent=b, original_node=None))  # type: ignore
+            forms.append(T.Or(values=[a, b], original_node=None))  # type: ignore
+            forms.append(T.Or(values=[a, b, _name("relaxed")], original_node=None))  # type: ignore
+            forms.append(T.And(values=[a, b], original_node=None))  # type: ignore
+    forms.append(T.Or(values=[at[3]], original_node=None))  # type: ignore
+    return forms
+
+
+def replay_conditional(obligation: str = "", model: Optional[Dict[str, str]] = None, desc: str = "",
+                       **_: Any) -> Dict[str, Any]:
+    from aas_core_codegen.parse.tree import dump as _dump  # type: ignore
+    for node in _forms():
+        try:
+            r = _match.try_conditional_on_prop(node)
+        except BaseException as e:  # noqa
+            return {"confirmed": True, "input": _dump(node), "observed": f"raised {type(e).__name__}"}
+        want = S.is_guarded_form(node)
+        ok = (r is not None) == want
+        if ok and r is not None:
+            ok = r.prop_name == S.guard_prop(node) and r.consequent is S.guarded_consequent(node)
+        if not ok:
+            return {"confirmed": True, "input": _dump(node),
+                    "observed": f"matched={r is not None} but the node is{'' if want else ' not'} a guarded form"
+                                + (f"; guard property {getattr(r, 'prop_name', None)!r}" if r is not None else "")}
+    return {"confirmed": False, "searched": f"{len(_forms())} small invariant forms"}
+
+
+def replay_match(obligation: str = "", model: Optional[Dict[str, str]] = None, desc: str = "",
+                 **_: Any) -> Dict[str, Any]:
+    from aas_core_codegen.parse.tree import dump as _dump  # type: ignore
+    operands = [_self_prop("b"), _name("self")]
+    for op in T.Comparator:
+        for c in (-1, 0, 1, 3, True):
+            for x in operands:
+                const = T.Constant(value=c, original_node=None)  # type: ignore
+                for node in (T.Comparison(left=_len_call(x), op=op, right=const, original_node=None),  # type: ignore
+                             T.Comparison(left=const, op=op, right=_len_call(x), original_node=None)):  # type: ignore
+                    try:
+                        r = _len._match_len_constraint_on_member_or_name(node)
+                    except BaseException as e:  # noqa
+                        return {"confirmed": True, "input": _dump(node), "observed": f"raised {type(e).__name__}"}
+                    if r is None:
+                        if op is not T.Comparator.NE:
+                            return {"confirmed": True, "input": _dump(node), "observed": "recognised comparison dropped"}
+                        continue
+                    if r.member_or_name is not x:
+                        return {"confirmed": True, "input": _dump(node), "observed": "constraint attached to another operand"}
+                    for n in range(-3, 8):
+                        if S.sat(r.constraint, n) != S.comparison_holds(node, n):
+                            return {"confirmed": True, "input": _dump(node),
+                                    "observed": f"inferred {type(r.constraint).__name__}({r.constraint.value}) "
+                                                f"disagrees with the comparison at length {n}"}
+    return {"confirmed": False}
